@@ -387,7 +387,10 @@ class DepCall(Contract):
         cx.oblige("frame.call", not self.obj.writes, "frame", "evaluation does not change the dependence function")
 
 
-FIT_CASES = [dict(weights=w, cons=c) for w in ("none", "callable", "returns_y") for c in ("none", "given")] + [dict(weights="none", cons="none", fail=True)]
+# second=True: the same dependence function is fitted a second time to OTHER support points of the same number (a re-fit
+# of the model, a deferred fit after the functions it uses): everything forwarded belongs to the second call
+FIT_CASES = [dict(weights=w, cons=c) for w in ("none", "callable", "returns_y") for c in ("none", "given")] + [dict(weights="none", cons="none", fail=True)] + \
+            [dict(weights=w, cons=c, second=True) for w in ("none", "callable", "returns_y") for c in ("none", "given")]
 
 
 @contract(DF + "._fit", ["C14", "C09"], FIT_CASES, name="depfunc._fit")
@@ -397,10 +400,25 @@ class DepFit(Contract):
     position-wise; then notifies every registered dependent"""
 
     def case_label(self, case):
-        return f"weights={case['weights']},constraints={case['cons']}" + (",fitter_fails" if case.get("fail") else "")
+        return f"weights={case['weights']},constraints={case['cons']}" + (",fitter_fails" if case.get("fail") else "") + (",second_fit_to_other_support_points" if case.get("second") else "")
+
+    def body(self, itp, case, args, kwargs):
+        from vf.contract import make_fv
+        cx = itp.cx
+        fv = make_fv(itp, DF + "._fit")
+        n = self.x.shape[0]
+        x0, y0 = sym_array(cx, "x_first", (n,)), sym_array(cx, "y_first", (n,))
+        itp.call_function(fv, [self.obj, x0, y0], {}, use_summary=False)
+        # what the contract says about one call is now said about the second one
+        del self.calls[:], self.callbacks[:]
+        if self.wfn is not None:
+            del self.wfn.calls[:]
+        self.p0 = dict(self.obj.fields["parameters"])
+        return itp.call_function(fv, list(args), dict(kwargs), use_summary=False)
 
     def setup(self, itp, case):
         me = self
+        me.use_body = bool(case.get("second"))
         me.calls = []
 
         def ff(itp_, args, kwargs):
@@ -483,6 +501,34 @@ class DepFit(Contract):
                   "fitted values written back to the parameters position by position")
         cx.oblige("post.notifies_dependents", [c[0] for c in self.callbacks] == self.dependents and all(c[1] is self.obj for c in self.callbacks)
                   and all(list(c[2].values()) == list(self.popt) for c in self.callbacks), "post", "every registered dependent is notified after the write-back")
+
+
+def _replay_depfit(self, case, ob):
+    """native: a real DependenceFunction (with / without a weights callable) fitted once, or twice to different support points of
+    the same number: its parameters must equal those of a fresh function fitted once to the last support points"""
+    import numpy as np
+    from virocon.dependencies import DependenceFunction
+
+    def lin(x, a, b):
+        return a + b * x
+    w = (lambda x, y: y) if case["weights"] == "returns_y" else ((lambda x, y: 1.0 / (1.0 + x)) if case["weights"] == "callable" else None)
+    x1, y1 = np.array([1.0, 2.0, 3.0, 4.0, 5.0]), np.array([9.0, 2.0, 7.0, 1.0, 8.0])
+    x2, y2 = np.array([1.0, 2.0, 4.0, 8.0, 16.0]), np.array([1.0, 2.5, 3.0, 6.0, 30.0])
+    try:
+        f = DependenceFunction(lin, bounds=[(None, None), (None, None)], weights=w)
+        if case.get("second"):
+            f.fit(x1, y1)
+        f.fit(x2, y2)
+        g = DependenceFunction(lin, bounds=[(None, None), (None, None)], weights=w)
+        g.fit(x2, y2)
+    except Exception as e:
+        return {"confirmed": True, "detail": f"raised {type(e).__name__}: {e}"}
+    pf, pg = [float(f.parameters[k]) for k in ("a", "b")], [float(g.parameters[k]) for k in ("a", "b")]
+    bad = not np.allclose(pf, pg, rtol=1e-4, atol=1e-6)
+    return {"confirmed": bool(bad), "detail": f"parameters after the last fit {pf}; a fresh function fitted once to the same support points {pg}"}
+
+
+DepFit.replay = _replay_depfit
 
 
 # ------------------------------------------------------------------------------------------------ fit-order protocol
